@@ -476,3 +476,28 @@ func TestVerif_C18(t *testing.T) {
 		}
 	}
 }
+
+// TestVerif_C18Rotate runs only in the build whose rotation interval is
+// shortened (driver package key writer-main-fastrotate): paced connections that
+// cross several file rotations and end some time after the last one.
+func TestVerif_C18Rotate(t *testing.T) {
+	c := vStart(t, "C18", "TestVerif_C18Rotate")
+	defer c.Finish()
+	if newFileInterval > 10*time.Second {
+		c.Inconclusive("rotation job started on a build with the real one-minute interval")
+		return
+	}
+	scratch := vEnv("VERIF_SCRATCH", t.TempDir())
+	n := c.N(4, 24)
+	for idx := int64(0); idx < n; idx++ {
+		if !c.Mine(idx) {
+			continue
+		}
+		rng := c.RNG(idx)
+		k := c18Case{Size: rng.PickInt(16, 1000, 4097), Count: rng.Range(300, 900), Stall: rng.PickInt(0, 0, 4), Chunk: rng.PickInt(0, 2), CutMid: rng.Bool()}
+		total := time.Duration(rng.Range(5000, 7000)) * time.Millisecond
+		c.Case(idx, func() interface{} { return k.String() + fmt.Sprintf(" paced over %v with a %v rotation interval", total, newFileInterval) }, func() {
+			runC18(c, scratch, idx, k, total)
+		})
+	}
+}
